@@ -77,6 +77,9 @@ def run(run):
             res["outs"][n + "@fresh-runtime"] = r["outs"].get(n, "ok")
             for k, v in r["effects"].items():
                 res["effects"][k] = res["effects"].get(k) or v
+    pair = lib.run_impl("c06_probes", [{"names": ["seq1-plant-placeholders", "seq2-check-placeholders"], "_timeout": 120}], shards=1, timeout=200)[0]
+    if pair.get("outcome") == "ok":
+        res["outs"]["seq2-check-placeholders@fresh-runtime"] = pair["outs"].get("seq2-check-placeholders", "ok")
     rev = lib.run_impl("c06_probes", [{"_timeout": 300, "reverse": True}], shards=1, timeout=400)[0]
     if rev.get("outcome") == "ok":
         for n, o in rev["outs"].items():
